@@ -32,6 +32,9 @@
 
 using namespace verif;
 
+// ThreadSanitizer defaults for this binary (ignored by the ASan build): the first report ends the process, so the failing input is the current case
+extern "C" const char* __tsan_default_options() { return "halt_on_error=1:second_deadlock_stack=1:exitcode=66:report_signal_unsafe=0"; }
+
 namespace {
 
 struct Ev {
